@@ -39,6 +39,12 @@ def judge(c, prop, events, work, name, cfg=None, module="TraceEvents", keyfn=Non
 
 
 def judge_one(c, prop, events, work, name, cfg=None, module="TraceEvents", keyfn=None, extra_states=1, offset=0):
+    # an accessor that raised on an accepted vector: nothing of what the property says about that vector's outputs can hold
+    for e in events:
+        out = e.get("out") if isinstance(e, dict) else None
+        if isinstance(out, dict) and out.get("cls") == "accessor-raised":
+            c.violation("%s|accessor-raised|%s" % (prop, out["e"]["exc"]), "an accessor raised %s (%s) for the accepted vector %s" % (out["e"]["exc"], out["e"].get("msg", "")[:120], e.get("s", "")[:200]),
+                        {"event": e, "clause": "accessor-raised"})
     p = os.path.join(work, name + ".trace.json")
     with open(p, "w") as fh:
         json.dump(events, fh, separators=(",", ":"))
@@ -67,9 +73,13 @@ def judge_one(c, prop, events, work, name, cfg=None, module="TraceEvents", keyfn
 
 def valid_corpus(rnd, n_random, versions="234"):
     vs = []
+    cov = corpus.coverage_vectors()          # reach every line-to-line transition of the working tree that the candidate set reaches
     for ver in versions:
         vs += corpus.covering_vectors(rnd, ver)
         vs += corpus.extremal_vectors(rnd, ver)
+        vs += [(ver, (0 if s.startswith("CVSS:3.0") else 1) if ver == "3" else -1, None, s) for v_, s in cov if v_ == ver]
+        if ver == "4":
+            vs += [x[:4] for x in corpus.lookup_cover_v4(rnd)]          # TLC-generated: 4 vectors per row of the lookup table
         for _ in range(n_random):
             vs.append(corpus.random_vector(rnd, ver))
     return vs
@@ -167,9 +177,11 @@ def run(prop, tier, seed):
                             vs.append((ver, minor, g, corpus.spell(ver, minor, g)))
             items = [{"op": "construct", "ver": v[0], "s": esc(v[3]), "json": False} for v in vs]
             ev = record_events(items, work)
-            for e in ev:
-                if e["out"]["cls"] != "ok":
-                    raise MachineryError("generator produced a vector the library rejects: %s (C04 decides whether that is a defect)" % e["s"])
+            nrej = sum(1 for e in ev if e["out"]["cls"] == "exc")
+            c.extra["valid_vectors_rejected_by_the_library"] = nrej          # C04's business; this property speaks about accepted vectors
+            if nrej > len(ev) // 2:
+                raise MachineryError("the library rejects most of the generated valid vectors, e.g. %s (C04 decides whether that is a defect)" % [e["s"] for e in ev if e["out"]["cls"] == "exc"][0])
+            ev = [e for e in ev if e["out"]["cls"] != "exc"]
             judge(c, prop, ev, work, "construct")
             c.evaluations = len(ev)
             if prop in ("C07", "C08"):
@@ -203,6 +215,15 @@ def run(prop, tier, seed):
                             if m not in g2 and rnd.random() < 0.5:
                                 g2[m] = corpus.ND[ver]
                         pool.append({"ver": ver, "s": esc(corpus.spell(ver, minor, g2))})
+                        # a second Not-Defined-spelled twin: as many explicit ND metrics as the first, but other ones where possible
+                        absent = [m for m in corpus.ORDER[ver] if m not in g]
+                        nnd = len(g2) - len(g)
+                        if absent and nnd:
+                            other = [m for m in absent if m not in g2] + [m for m in absent if m in g2]
+                            g2b = dict(g)
+                            for m in other[:nnd]:
+                                g2b[m] = corpus.ND[ver]
+                            pool.append({"ver": ver, "s": esc(corpus.spell(ver, minor, g2b))})
                         g3 = dict(g)
                         m = rnd.choice(list(g3))
                         g3[m] = rnd.choice(corpus.VALS[ver][m])
@@ -236,7 +257,7 @@ def run(prop, tier, seed):
                 # the interactive builder's return value: complete sessions, official pattern demanded
                 from props import interactive16
                 its = [i for i in interactive16.targeted_scripts(rnd)]
-                its = [i for i in its if i["all"]][::3] + [i for i in its if not i["all"]][::7] + interactive16.echo_scripts(rnd, work)
+                its = [i for i in its if i["all"] and not i.get("abort")][::3] + [i for i in its if not i["all"] and not i.get("abort")][::7] + [i for i in its if i.get("abort")] + interactive16.echo_scripts(rnd, work)
                 sess = record_events(its, work, name="sess", script="interactive.py")
                 sess_done = [s_ for s_ in sess if s_["events"] and s_["events"][-1]["ev"] == "Return"]
                 bver_map = {"2": ("2", -1), "3.0": ("3", 0), "3.1": ("3", 1), "4.0": ("4", -1)}
